@@ -427,6 +427,55 @@ func registration(rec *vr.Rec, kind string, code uint8) {
 	}
 }
 
+// failedRegistration: the registration fails for a reason other than the response code (the
+// request context ends while the request waits for its acknowledgement, or after the empty ACK
+// while waiting for the response); the peer answers late and keeps notifying: nothing may reach
+// the callback.
+func failedRegistration(rec *vr.Rec, kind, variant string) {
+	c := map[string]any{"transport": kind, "registration_fails_by": variant}
+	e := newEnv(kind, false)
+	defer e.closef()
+	var calls atomic.Int32
+	done := make(chan error, 1)
+	go func() {
+		ctx, cancel := context.WithTimeout(context.Background(), 40*time.Millisecond)
+		defer cancel()
+		_, err := e.observe(ctx, "/late", func([]byte, uint32, bool, string) { calls.Add(1) })
+		done <- err
+	}()
+	req, ok := e.waitRequest(0, 1)
+	if !ok {
+		rec.Inconclusive("observe request not seen")
+		return
+	}
+	if variant == "deadline-after-empty-ack" && kind == "udp" {
+		e.inject(ref.Msg{Type: 2, Code: 0, MID: req.MID})
+	}
+	err := <-done
+	rec.Eval("failed-registration|" + kind + "|" + variant)
+	rec.Count("failed_registration_cases", 1)
+	if err == nil {
+		rec.Violation("C08/"+kind+"/registration-succeeded-without-answer", "", c)
+		return
+	}
+	// late answer and further notifications for the same token
+	if kind == "udp" && variant == "deadline-before-ack" {
+		e.reply(req, 0x45, []ref.Opt{{ID: 6, Val: ref.Uint(2)}}, "late-first")
+	} else {
+		e.inject(e.notification(req.Token, 2, true, "late-first", false))
+	}
+	for i := 0; i < 4; i++ {
+		e.inject(e.notification(req.Token, uint32(3+i), true, "late", i%2 == 0))
+	}
+	if !e.sync() {
+		rec.Inconclusive("sync")
+		return
+	}
+	if n := calls.Load(); n != 0 {
+		rec.Violation("C08/"+kind+"/callback-after-failed-registration", fmt.Sprintf("registration failed (%s: %v) but %d later messages with its token reached the callback", variant, err, n), c)
+	}
+}
+
 func perms(a []uint32, visit func([]uint32)) {
 	var rec func(k int)
 	rec = func(k int) {
@@ -578,6 +627,11 @@ func TestRun(t *testing.T) {
 		}(kind)
 	}
 	rwg.Wait()
+	for i := 0; i < vr.Scale(4, 60); i++ {
+		failedRegistration(rec, "udp", "deadline-before-ack")
+		failedRegistration(rec, "udp", "deadline-after-empty-ack")
+		failedRegistration(rec, "tcp", "deadline-before-answer")
+	}
 	rec.Assume("runs are far shorter than 128 s (checked: a run above 100 s is inconclusive), so on live connections only the serial-number clauses decide; the 128 s clause is decided on the exported predicate")
 	rec.Assume("a notification without an Observe option is always delivered (the library's documented behaviour for non-observe responses) and does not move the last sequence number")
 }
